@@ -112,6 +112,7 @@ class Engine(OpsMixin, ExprMixin, CallMixin, StmtMixin, BuiltinsMixin):
         self.using_lemma = 0
         self.heap_reads = set()
         self._quant_cache = {}
+        self._rx_cache = {}
         self.axioms = []
         self.case_splits = []
         self.abrupt = []
@@ -235,6 +236,13 @@ class Engine(OpsMixin, ExprMixin, CallMixin, StmtMixin, BuiltinsMixin):
         self.current_inputs = {k: v.t for k, v in inputs.items()}
         if c.ghost_init is not None:
             c.ghost_init(self, st)
+        for oname, ofn in c.observe.items():
+            import inspect as _i
+            ov = self.eval_spec_fn(st, ofn, {p_: env[p_] for p_ in _i.signature(ofn).parameters})
+            if not ov.is_py and ov.ty.kind in ("str", "int", "bool"):
+                oc = z3.Const(f"obs_{oname}", self.reg.sort(ov.ty))
+                st.pc.append(oc == ov.t)
+                self.current_inputs[oname] = oc
         if c.pre is not None:
             st.assume(self.truth(self.eval_spec_fn(st, c.pre, env)), "pre")
             self.vcs.append(VC(f"{self.vc_prefix}/cover/pre", list(st.pc), z3.BoolVal(True), kind="cover",
